@@ -1,4 +1,5 @@
 import VelaVerif.Spec.NpuSem
+import VelaVerif.Spec.ArenaExec
 import VelaVerif.Handlers.Util
 /-!
 Protocol for C01 (one request per compiled network):
@@ -11,13 +12,18 @@ Protocol for C01 (one request per compiled network):
 * programs: `scratch,fast|w,w,…|off/dtype/shape,…|off/dtype/shape,…|widx,widx,…` separated by `;`
 * weights: `oc,kh,kw,ic:v,v,…` separated by `;`
 * data:    input sets separated by `;`, tensors of a set by `/`, little-endian hex
+* oarena (optional): `<arena bytes>:<offset>,<offset>,…` — arena offset of every tensor of the output graph (−1 = none);
+  when present the output graph is executed over one arena (`Spec/ArenaExec.lean`): CPU operators and Ethos-U operators
+  read and write the same bytes
 
-answer: `ok blocks=<n> sets=<k> | t<id> cls=<c> maxdiff=<d> bad=<n> first=<set>/<index>/<ref>/<got> | … | verdict=<pass|fail>`
+answer: `ok ops=<n> sets=<k> | t<id> cls=<c> maxdiff=<d> bad=<n> first=<set>/<index>/<ref>/<got> | … | exptab seen=<n> bad=<k> first=<table>/<entry>/<ref>/<got> | verdict=<pass|fail>`
+        (`exptab`: tables of exponentials the streams install for 8-bit SOFTMAX, compared entry by entry with the table of
+        `exp_on_negative_values` of the reference parameters; it does not influence the verdict)
         `skip:<side>:unsupported:<what>`   (an operator or NPU feature is not modelled: not simulated)
         `err:<side>:<text>`
 -/
 namespace VelaVerif.Handlers.Sem
-open VelaVerif VelaVerif.Handlers VelaVerif.TfliteRef VelaVerif.NpuSem
+open VelaVerif VelaVerif.Handlers VelaVerif.TfliteRef VelaVerif.NpuSem VelaVerif.NpuWide VelaVerif.ArenaExec
 
 def kv (toks : List String) (key : String) : Option String :=
   toks.findSome? fun t => if t.startsWith (key ++ "=") then some (t.drop (key.length + 1)).toString else none
@@ -124,7 +130,8 @@ def cmpTensors (c : Cmp) (setIdx : Nat) (tol : Nat) (ref got : Tensor) : Cmp := 
       c := { c with bad := c.bad + 1, first := c.first.orElse fun _ => some (setIdx, i, r, g) }
   return c
 
-def classify (side : String) (e : String) : String :=
+def classify (side : String) (e : String) (raw : Bool := false) : String :=
+  if raw then s!"raw:{side}:{e}" else
   match (e.splitOn "unsupported:") with
   | _ :: rest :: _ => s!"skip:{side}:unsupported:{(rest.splitOn " ").headD ""}"
   | _ => s!"err:{side}:{e.replace " " "_"}"
@@ -146,13 +153,24 @@ def run (toks : List String) : Option String := do
   if !((src.inputs.zip outg.inputs).all fun (a, b) => sameSig a b) ∨ !((src.outputs.zip outg.outputs).all fun (a, b) => sameSig a b) then
     return "err:iface:input_or_output_type_or_size_differs"
   let tol := tolerances src
-  let custom := fun (op : OpDef) (ins : List (Option Tensor)) =>
+  let dbg := (kv toks "debug").isSome
+  let arenaSpec : Option (Nat × Array Int) := do
+    match (← kv toks "oarena").splitOn ":" with
+    | [sz, offs] => some (← parseNat? sz, (← (splitNE offs ",").mapM parseInt?).toArray)
+    | _ => none
+  let npuArena : OpDef → ByteArray → Except String ByteArray := fun (op : OpDef) (arena : ByteArray) =>
+    match progs[pN op 0 0]? with
+    | none => throw "custom operator without program"
+    | some p => do
+      let (arena', _) ← runProgramArena flash p arena
+      pure arena'
+  let custom : OpDef → List (Option Tensor) → Option (Except String (List Tensor)) := fun (op : OpDef) (ins : List (Option Tensor)) =>
     if op.kind = "NPU" then
       some (match progs[pN op 0 0]? with
         | none => throw "custom operator without program"
         | some p => do
           let ins ← ins.mapM fun t => match t with | some t => pure t | none => throw "custom operator input has no value"
-          let (outs, _) ← runProgram flash p ins
+          let (outs, _) ← runProgramX flash p ins
           pure outs)
     else none
   let mut cmps : Array Cmp := Array.replicate src.outputs.length {}
@@ -161,10 +179,12 @@ def run (toks : List String) : Option String := do
     if set.length ≠ src.inputs.length then return "err:harness:input_set_size"
     let ins := (set.zip src.inputs).map fun (hex, i) => ({ shape := src.shape i, data := bytesToInts (hexToBytes hex) (src.dtype i) } : Tensor)
     match evalGraph src ins with
-    | .error e => return classify "src" e
+    | .error e => return classify "src" e dbg
     | .ok envS =>
-      match evalGraph outg ins custom with
-      | .error e => return classify "out" e
+      match (match arenaSpec with
+             | some (sz, offs) => evalGraphArena outg offs sz ins npuArena
+             | none => evalGraph outg ins custom) with
+      | .error e => return classify "out" e dbg
       | .ok envO =>
         for j in [0:src.outputs.length] do
           let so := src.outputs.getD j 0
@@ -182,7 +202,20 @@ def run (toks : List String) : Option String := do
     let first := match c.first with | some (s, i, r, g) => s!"{s}/{i}/{r}/{g}" | none => "-"
     s!"t{so} cls={tol.getD so 2} maxdiff={c.maxdiff} bad={c.bad} first={first}"
   let fail := cmps.any fun c => c.bad > 0
-  some (s!"ok ops={nblocks} sets={k} | " ++ " | ".intercalate parts ++ s!" | verdict={if fail then "fail" else "pass"}")
+  -- tables of exponentials: every table a stream installs for a 32-bit lookup must be the table of one 8-bit SOFTMAX
+  let refTabs : List (List Int) := src.ops.filterMap fun op =>
+    if op.kind = "SOFTMAX" ∧ (src.dtype (outId op 0)).bytes = 1 then some (SoftmaxKernel.expTable8 (pI op 0 0) (pN op 0 1) (pI op 0 2)) else none
+  let seenTabs : List (List Int) := if refTabs.isEmpty then [] else
+    progs.toList.flatMap fun p => match expTables flash p.shramSize p.lutBase p.words with | .ok ts => ts | .error _ => []
+  let badTabs := (seenTabs.zipIdx).filter fun (t, _) => !refTabs.contains t
+  let firstTab := match badTabs, refTabs with
+    | (t, i) :: _, r :: _ =>
+      match ((t.zip r).zipIdx).find? (fun (x : (Int × Int) × Nat) => x.1.1 ≠ x.1.2) with
+      | some ((a, b), j) => s!"{i}/{j}/{b}/{a}"
+      | none => s!"{i}/-/-/-"
+    | _, _ => "-"
+  some (s!"ok ops={nblocks} sets={k} | " ++ " | ".intercalate parts ++ s!" | exptab seen={seenTabs.length} bad={badTabs.length} first={firstTab}"
+        ++ s!" | verdict={if fail then "fail" else "pass"}")
 
 def handle : List String → Option String
   | "semcheck" :: toks => some ((run toks).getD "err:harness:malformed_request")
